@@ -142,9 +142,11 @@ def check(run: Run, prog: Program, model: Model, tier: str) -> None:
                 if got is None:
                     if of is False:
                         probs.append(f"required key {k.key()} is absent from the result: dicts without it become acceptable")
-                    else:
-                        if not had_rel:
-                            pass   # optional key vanished from a closed table: result rejects it -> narrower
+                    elif tbl.lookup(ELL) is not None:
+                        # an optional key vanished from a table that stays relaxed: the key is now an "undeclared" one,
+                        # which `...: ...` admits with ANY value - the member schema no longer constrains it
+                        probs.append(f"optional key {k.key()} is dropped from a relaxed result: its member schema no longer constrains it")
+                    # (dropped from a closed table: the result rejects the key -> narrower)
                     continue
                 gm, gf = got.items if isinstance(got, TupleV) and len(got.items) == 2 else (None, None)
                 if gf is None or not isinstance(gf, Const):
